@@ -14,17 +14,47 @@ LIGATURE = set("ুূৃ")
 LEFT_STANDING = set("িেৈ")
 
 
+ROLE_SETS = None
+
+
 def class_fns(prog):
-    """Role → fn key: the three `Utility for char` predicates, ligature-making and left-standing."""
+    """Role → fn key: the three `… for char` trait predicates (vowel, vowel sign, consonant), ligature-making and left-standing.
+    A predicate is given its role by its name when the name is one of the five; a role nobody is named after goes to the still
+    unnamed predicate whose *set* (evaluated over the Bengali block) is most similar to the role's expected set — so a renamed
+    predicate keeps its role and a predicate with a wrong member is still found (and then reported by the class rule)."""
+    if getattr(prog, "_class_fns", None) is not None:
+        return prog._class_fns
     out = {}
+    cands = {}
     for k, f in prog.fns.items():
         imp = f.get("impl") or {}
-        if imp.get("trait") == "utility::Utility" and imp.get("self") == "char":
-            out[f["name"]] = k
-    # free fn(char)->bool predicates of the fixed method
+        if imp.get("self") == "char" and imp.get("trait") and f.get("output") == "bool" and len(f.get("inputs") or []) == 1 and not imp.get("trait", "").startswith("std::"):
+            cands[k] = f["name"]
+    # free fn(char)->bool predicates
     for k, f in prog.fns.items():
         if f.get("inputs") == ["char"] and f.get("output") == "bool" and not f.get("impl"):
-            out[f["name"]] = k
+            cands[k] = f["name"]
+    for k, n in cands.items():
+        out[n] = k
+    roles = {"is_vowel": INDEP11 | SIGNS10, "is_kar": SIGNS10, "is_pure_consonant": CONSONANTS, "is_ligature_making_kar": LIGATURE,
+             "is_left_standing_kar": LEFT_STANDING}
+    missing = [r for r in roles if r not in out]
+    if missing:
+        pe = PredEval(prog)
+        free = {k: n for k, n in cands.items() if n not in roles}
+        sets = {k: pe.char_set(k, BENGALI_DOMAIN) for k in sorted(free)}
+        for r in missing:
+            best, score = None, 0.0
+            for k, cs in sorted(sets.items()):
+                if not cs:
+                    continue
+                j = len(cs & roles[r]) / float(len(cs | roles[r]))
+                if j > score:
+                    best, score = k, j
+            if best is not None and score >= 0.6:
+                out[r] = best
+                del sets[best]
+    prog._class_fns = out
     return out
 
 
